@@ -24,6 +24,10 @@ pub struct Plan {
     pub threads: Vec<Vec<ApiOp>>,
     pub sched: SchedSpec,
     pub env_seed: u64,
+    /// quiescent end: this many further, pairwise distant searches fill the query-result cache (its bound is read after
+    /// each), so that whatever the race left in the cache's bookkeeping travels to the eviction end
+    #[serde(default)]
+    pub fill: usize,
 }
 
 #[derive(Clone, Debug, Serialize, Deserialize)]
@@ -69,9 +73,43 @@ pub fn gen_plan(seed: u64, run: u64) -> Plan {
     let pre: Vec<ApiOp> = (0..rng.range(0, 5)).map(|_| gen_op(&mut rng, &cfg, universe, &mut w)).collect();
     let n_threads = rng.range(2, 3) as usize;
     let threads: Vec<Vec<ApiOp>> = (0..n_threads).map(|_| (0..rng.range(1, 3)).map(|_| gen_op(&mut rng, &cfg, universe, &mut w)).collect()).collect();
+    let mut pre = pre;
+    let mut threads = threads;
+    let mut fill = 0usize;
+    if prog % 3 == 2 {
+        // similarity programs: a cached search, then paraphrases of it (served through the similarity path of the
+        // query-result cache) racing with writes to the documents of the cached result
+        cfg.qc_threshold_milli = 950;
+        pre.clear();
+        for id in 0..universe {
+            w += 1;
+            pre.push(ApiOp::Insert { id, vec: bits(&gen_vector(&mut rng, cfg.dim, w)), meta: gen_meta(&mut rng, w) });
+        }
+        w += 1;
+        let q0 = gen_vector(&mut rng, cfg.dim, w);
+        pre.push(ApiOp::Knn { q: bits(&q0), k: 2 });
+        let para = |j: usize| -> Vec<u32> { bits(&q0.iter().enumerate().map(|(i, x)| x * (1.0 + 0.004 * (j as f32 + 1.0) * if i % 2 == 0 { 1.0 } else { -1.0 })).collect::<Vec<f32>>()) };
+        threads.clear();
+        threads.push((0..rng.range(1, 2) as usize).map(|j| ApiOp::Knn { q: para(j), k: 2 }).collect());
+        let mut writer = Vec::new();
+        for _ in 0..rng.range(1, 2) {
+            let id = rng.below(universe);
+            if rng.chance(1, 2) {
+                writer.push(ApiOp::Delete { id });
+            } else {
+                w += 1;
+                writer.push(ApiOp::Insert { id, vec: bits(&gen_vector(&mut rng, cfg.dim, w)), meta: gen_meta(&mut rng, w) });
+            }
+        }
+        threads.push(writer);
+        if rng.chance(1, 2) {
+            threads.push(vec![ApiOp::Knn { q: para(3), k: 2 }]);
+        }
+        fill = cfg.qc_cap + 2;
+    }
     let env_seed = rng.next();
     let mut srng = Rng::for_run(seed, "C20cs", run);
-    Plan { cfg, universe, pre, threads, sched: SchedSpec::gen(&mut srng, 120), env_seed }
+    Plan { cfg, universe, pre, threads, sched: SchedSpec::gen(&mut srng, 120), env_seed, fill }
 }
 
 pub struct Exec {
@@ -144,6 +182,24 @@ pub fn execute(plan: &Plan) -> Exec {
             f.insert("which".into(), "document_cache".into());
             f.insert("history".into(), "concurrent_inserts".into());
             ex.problems.push(("bound_exceeded".into(), format!("after the concurrent operations the document cache holds {} entries, capacity {}", csz, cache_bound), f));
+        }
+        // quiescent fill: pairwise distant searches, the bound is read after each
+        for j in 0..p.fill {
+            let mut q = vec![0.0f32; p.cfg.dim.max(1)];
+            let l = q.len();
+            q[j % l] = 1.0;
+            if j >= l {
+                q[(j + 1) % l] = -1.0 - (j / l) as f32;
+            }
+            let _ = exec(&built, &ApiOp::Knn { q: bits(&q), k: 2 });
+            let n = built.qc.len();
+            if n > p.cfg.qc_cap.max(1) {
+                let mut f = BTreeMap::new();
+                f.insert("which".into(), "query_result_cache".into());
+                f.insert("history".into(), "concurrent_similarity_hits_then_fill".into());
+                ex.problems.push(("bound_exceeded".into(), format!("quiescent fill, search {}: the query-result cache holds {} entries, capacity {}", j + 1, n, p.cfg.qc_cap), f));
+                break;
+            }
         }
         let qlen = built.qc.len();
         if qlen > p.cfg.qc_cap.max(1) {
